@@ -74,7 +74,7 @@ cfg("C04", assumptions=[ILAWS, A_ENT],
     not_decided=["'uniformly distributed' / 'statistically independent' are the probabilistic corollaries of the proved bijection (Lean affine_injOn) and of C11; the corollary itself is stated, not mechanised",
                  "password-independence of the scalar and identity-independence of the message are read off the proved result terms (syntactic dependence over-approximates semantic dependence)"],
     extra=extra(lean_theorems("affine_injOn", "affine_inj_nat")))
-cfg("C05", assumptions=[ILAWS, VALID_GROUP, "M-xrecover (T2): completeness of x-recovery (every curve point's y has a root) is only needed for 'honest encodings decode' (C15), not for strictness"])
+cfg("C05", assumptions=[ILAWS, VALID_GROUP, "completeness of x-recovery (needed only for 'honest encodings decode') is the Lean theorem xrecover_complete on the generated mirror of the real xrecover"])
 cfg("C06", assumptions=[ILAWS])
 cfg("C07", assumptions=[ILAWS, A_ENT, "induction over call histories is a 3-line meta-argument over the proved per-method clauses (flags monotone, raise-iff conditions, scalar stable), not mechanised"])
 cfg("C08", assumptions=[ILAWS, "T0 json model: json.loads(json.dumps(d)) == d for str->str dicts; json.dumps output is ASCII"])
@@ -91,7 +91,7 @@ cfg("C12", assumptions=["M-prime(Q) discharged by Pratt certificate; the Lean th
 cfg("C13", assumptions=[VALID_GROUP, "group axioms themselves (associativity, commutativity, distributivity) are facts about the spec operations: Lean Algebra.lean for integer groups; M-edgroup for Ed25519"],
     extra=extra(lean_theorems("smul_add", "smul_mul", "smul_mul_distrib", "smul_zero", "smul_one", "mul_add'", "mul_distrib'", "mul_mul", "insub_add", "insub_mul")))
 cfg("C14", assumptions=[A_HKDF, A_TERM, VALID_GROUP, CONST_NOTE], extra=extra(ground.constants, ground.vectors))
-cfg("C15", assumptions=[VALID_GROUP, "A-float: math.ceil(bits/8) is exact (bits < 2**53)", "M-xrecover (T2) for decode(encode(P)) == P on Ed25519 (see C05)"])
+cfg("C15", assumptions=[VALID_GROUP, "A-float: math.ceil(bits/8) is exact (bits < 2**53)", "decode(encode(P)) == P on Ed25519 uses the Lean theorems xrecover_complete / xrecover_sq"])
 cfg("C16", assumptions=["A-gil: the multi-threaded clause rests on the footprint argument (disjoint write sets, shared state never written after import); no schedule is explored - argued, not proved"],
     not_decided=["multi-threaded executions: sequential contracts cannot express schedules (footprint argument only)"],
     extra=extra(_static))
